@@ -254,6 +254,25 @@ func (s LWs) Close() (err error) {
 	return
 }
 
+// tellLevel passes the severity of the coming record to every
+// destination in w that implements LevelSettable.
+func tellLevel(w LogWriter, lvl Level) {
+	if x, ok := w.(LevelSettable); ok {
+		x.SetLevel(lvl)
+	}
+	if ws, ok := w.(LWs); ok {
+		for _, m := range ws {
+			if x, ok := m.(LevelSettable); ok {
+				x.SetLevel(lvl)
+			} else if lw, ok := m.(*logwr); ok {
+				if x, ok := lw.Writer.(LevelSettable); ok {
+					x.SetLevel(lvl)
+				}
+			}
+		}
+	}
+}
+
 func (s LWs) Write(p []byte) (n int, err error) {
 	// TO/DO implement me
 	// /panic("implement me")
